@@ -993,8 +993,21 @@ def dom_guard_rule(ctx):
     # Logit = InverseTransform(Sigmoid)
     logit = p.find_class("Logit", "nflows.transforms.nonlinearities")
     init = logit.methods.get("__init__")
-    if init is not None and "super().__init__(Sigmoid(" in norm_text(init.node) and any(getattr(b, "name", None) == "InverseTransform" for b in logit.bases):
+    wrapped = None
+    if init is not None:
+        for c in ast.walk(init.node):
+            if isinstance(c, ast.Call) and isinstance(c.func, ast.Attribute) and c.func.attr == "__init__" and isinstance(c.func.value, ast.Call) and isinstance(c.func.value.func, ast.Name) and c.func.value.func.id == "super":
+                wrapped = c.args[0] if c.args else next((k.value for k in c.keywords if k.arg == "transform"), None)
+        if isinstance(wrapped, ast.Name):
+            defs = [a.value for a in ast.walk(init.node) if isinstance(a, ast.Assign) and any(isinstance(t, ast.Name) and t.id == wrapped.id for t in a.targets)]
+            wrapped = defs[0] if len(defs) == 1 else None
+    is_sigmoid = isinstance(wrapped, ast.Call) and isinstance(wrapped.func, ast.Name) and wrapped.func.id == "Sigmoid"
+    if is_sigmoid and any(getattr(b, "name", None) == "InverseTransform" for b in logit.bases) and "forward" not in logit.methods and "inverse" not in logit.methods:
         res.ok("Logit.forward is Sigmoid.inverse (guarded above)")
+    elif is_sigmoid and any(getattr(b, "name", None) == "InverseTransform" for b in logit.bases):
+        res.undecide("Logit", "Logit overrides forward / inverse of InverseTransform(Sigmoid(..)): the guard it runs is not the one checked above")
+    elif init is not None and wrapped is None and any(getattr(b, "name", None) == "InverseTransform" for b in logit.bases):
+        res.undecide("Logit", "cannot read which transform Logit.__init__ hands to InverseTransform")
     else:
         res.fail(Finding("DOM-GUARD", logit.module, "Logit", logit.node, "Logit must be InverseTransform(Sigmoid(...)) to inherit the domain guard", construct="Logit"))
     # DOM-CLAMP: on every returning path of Sigmoid.inverse, each logarithm is taken of an
